@@ -256,6 +256,8 @@ def check_split(case, rec):
     if case['extra']:
         df['Label'] = ['ch%d' % (i % 3) for i in range(len(df))]
         df.insert(0, 'subject', 7)
+        df['downsample_factor'] = 4              # contains, but does not start with, the sample_ prefix
+        df['n_sample_points'] = np.arange(len(df))
     keep = df.copy(deep=True)
     scols = sample_columns(keep)
     dropped = guarded(drop_samples_df, df)
@@ -339,6 +341,20 @@ def check_flatten(case, rec):
             if a.dtype.kind in 'fiub':
                 if not ref.same_float(a.astype(float), np.asarray(b, dtype=float)):
                     raise Violation('flatten_dfs:values-or-order', 'column %s' % c)
+    if case.get('relabel'):
+        # the same table objects flattened again under other labels (e.g. first by epoch, then by condition)
+        lab2 = ['R%s' % i for i in range(len(lab))]
+        if case['shape'] == '1d':
+            arg2 = lab2
+        else:
+            arg2 = [[lab2[i * n1 + j] for j in range(n1)] for i in range(n0)]
+        out2 = guarded(flatten_dfs, dfs, arg2, **({'column_name': case['column_name']} if case['column_name'] else {}))
+        pos = 0
+        for t, l in zip(originals, lab2):
+            got_l = out2.iloc[pos:pos + len(t)][col].values
+            pos += len(t)
+            if len(t) and not all(g == l for g in got_l.tolist()):
+                raise Violation('flatten_dfs:label-of-origin-on-second-use', 'second flatten: rows of the table labelled %r carry %r' % (l, sorted(set(got_l.tolist()))[:3]))
     empties = sum(1 for t in originals if len(t) == 0)
     rec.label('shape:' + case['shape'], 'labels:' + case['label_container'], 'label-type:' + case['label_type'],
               'has-empty-table' if empties else 'no-empty-table', 'labels-repeat' if case.get('group_labels') else 'labels-unique')
@@ -364,7 +380,7 @@ def strat_flatten(draw, tier):
     return {'shape': shape, 'n0': n0, 'tables': tables, 'labels': labels, 'method': draw(st.sampled_from(['cycles', 'amp'])),
             'label_type': draw(st.sampled_from(['str', 'str', 'int'])),
             'label_container': draw(st.sampled_from(['list', 'array'] + (['flat'] if shape == '2d' else []))),
-            'column_name': draw(st.sampled_from([None, None, 'Channel'])), 'group_labels': draw(st.integers(0, 2)) == 0}
+            'column_name': draw(st.sampled_from([None, None, 'Channel'])), 'group_labels': draw(st.integers(0, 2)) == 0, 'relabel': draw(st.integers(0, 2)) == 0}
 
 
 PARTS = [
